@@ -479,27 +479,47 @@ func graphGen(rng *hx.Rng, n int, tier string, w *hx.Writer) {
 		r := rng.Fork()
 		switch k := r.Intn(20); {
 		case k < 6:
-			emitGraph(genRandom(r, maxN), []string{"random"}, w)
+			sc := genRandom(r, maxN)
+			if active() {
+				emitGraph(sc, []string{"random"}, w)
+			}
 			count++
 		case k < 11:
 			kk := 1 + r.Intn(5)
-			emitGraph(genCycle(r, kk, r.Intn(3)), []string{"cycle", fmt.Sprintf("cyc%d", kk)}, w)
+			sc := genCycle(r, kk, r.Intn(3))
+			if active() {
+				emitGraph(sc, []string{"cycle", fmt.Sprintf("cyc%d", kk)}, w)
+			}
 			count++
 		case k < 13:
-			emitGraph(genSelf(r), []string{"self"}, w)
+			sc := genSelf(r)
+			if active() {
+				emitGraph(sc, []string{"self"}, w)
+			}
 			count++
 		case k < 16:
-			emitGraph(genMatch(r), []string{"match"}, w)
+			sc := genMatch(r)
+			if active() {
+				emitGraph(sc, []string{"match"}, w)
+			}
 			count++
 		case k < 18:
-			emitGraph(genDiamond(r), []string{"diamond"}, w)
+			sc := genDiamond(r)
+			if active() {
+				emitGraph(sc, []string{"diamond"}, w)
+			}
 			count++
-		case k < 19:
-			emitGraph(genD8(r), []string{"d8"}, w)
+		case k < 19 || k == 19 && r.P(1, 2):
+			sc := genD8(r)
+			if active() {
+				emitGraph(sc, []string{"d8"}, w)
+			}
 			count++
 		default:
 			for _, sc := range genFaultSweep(r) {
-				emitGraph(sc, []string{"faultsweep"}, w)
+				if active() {
+					emitGraph(sc, []string{"faultsweep"}, w)
+				}
 				count++
 				if count >= n {
 					break
